@@ -99,6 +99,14 @@ func runC14(w *World) {
 	})
 	a := w.addActor(n, "127.0.0.1:50001", prog)
 	a.onReply = func(op *Op) { hc.onReply(op, a.end.c.name) }
+	// a third of the runs have a follower: expirations reach it as logged DELs
+	var F *Node
+	if w.knob("follower", 3) == 0 {
+		F = w.addNode("n2", "10.0.0.2", 9851)
+		F.config["follow_host"] = "10.0.0.1"
+		F.config["follow_port"] = 9851
+		F.start()
+	}
 	// a live fence over the whole collection observes every delete
 	var fence *Actor
 	if w.knob("fence", 2) == 1 {
@@ -137,6 +145,24 @@ func runC14(w *World) {
 	hc.finish(nil)
 	if !w.failed() {
 		apiDumpCheck(w, n, hc.lm, "C14")
+	}
+	if !w.failed() && F != nil {
+		// the follower must have lost the expired objects too (it applies the leader's DELs;
+		// its own sweeper may have been faster, never slower than the bound)
+		same := func() bool {
+			fi := F.inst
+			return fi.ready() && fi.srv.caughtUp() && fi.lock.writer == nil && n.inst.lock.writer == nil &&
+				fi.dump().text(true) == n.inst.dump().text(true)
+		}
+		if !w.Drain(10*time.Second, same) && !w.failed() {
+			if fi := F.inst; fi.ready() && fi.srv.caughtUp() {
+				w.violate("C14/follower", "after every deadline has passed the follower still differs from the leader: %s", firstDiff(n.inst.dump().text(true), fi.dump().text(true)))
+			} else {
+				w.stat("probe.follower_never_reported_caught_up", 1)
+			}
+		} else {
+			w.stat("probe.follower_agrees_after_expiry", 1)
+		}
 	}
 	// every logged expiry of a geometry must have reached the live fence as 'del'
 	nexp := 0
